@@ -31,6 +31,11 @@ class Fork(Exception):
         self.cond = cond
 
 
+class Infeasible(Exception):
+    """the path assumed something that turned out to contradict the run (e.g. a send ordered after a drop that it
+    causally precedes): the path is discarded, it stands for no execution"""
+
+
 class Panic(Exception):
     pass
 
@@ -208,9 +213,32 @@ def parse_function(ftext, name):
 # --------------------------------------------------------------------------
 
 class FrameS:
-    def __init__(self, fn, locs, dest, ret_bb):
+    def __init__(self, fn, locs, dest, ret_bb, post=None):
         self.fn, self.locs, self.bb, self.dest, self.ret_bb = fn, locs, "bb0", dest, ret_bb
         self.stmts_done = False
+        self.post = post        # plain data describing what to do with the return value (see Interp.post_handlers)
+
+
+class CallMir:
+    """returned by a model that needs a crate function / closure interpreted: run `fname` on `args`, then hand the
+    result to the post handler named post["kind"] (which may ask for another call or produce the model's value)"""
+    def __init__(self, fname, args, post):
+        self.fname, self.args, self.post = fname, args, post
+
+
+class After:
+    """returned by a model: store `value` as the call's result, continue after the call, then run fn(interp, state)
+    (used to switch to a newly spawned thread's stack)"""
+    def __init__(self, value, fn):
+        self.value, self.fn = value, fn
+
+
+class _Block:
+    def __deepcopy__(self, memo):
+        return self
+
+
+BLOCK = _Block()        # returned by a model whose caller cannot proceed yet: the call is re-executed when the thread is resumed
 
 
 class State:
@@ -228,6 +256,7 @@ class Interp:
         self.text = mirtext
         self.enums, self.structs = crate_types(src_texts)
         self.src_sort = src_texts[0] if src_texts else ""
+        self.module_sources = {}    # module name -> text of the generated copy (line numbers as in the MIR's impl headers)
         self.models = models
         self.fn_index = fn_index            # callee text -> name of a crate function to interpret from its MIR
         self.fn_cache = {}
@@ -237,6 +266,11 @@ class Interp:
         self.forks = 0
         self.deadline = None
         self.max_steps = 200000
+        self.post_handlers = {}     # kind -> fn(interp, state, post, return_value) -> value | CallMir
+        self.drop_hook = None       # fn(interp, state, value) called for every executed drop(place)
+        self.modules = ["sort"]     # modules whose functions may be interpreted from their MIR when no model matches
+        self.thread_hook = None     # fn(interp, state, return_value) called when a stack runs empty (a thread, or the program, ended)
+        self.block_hook = None      # fn(interp, state) called when a model answered BLOCK
 
     # ---- solver
     def sat(self, conds):
@@ -319,21 +353,43 @@ class Interp:
         return self.fn_cache[name]
 
     def resolve_crate_fn(self, callee):
-        """MIR function for a callee the model list and the index do not know: only a UNIQUE function of
-        the interpreted module (sort::) with that last path segment qualifies"""
-        last = re.sub(r"::<.*>$", "", callee).split("::")[-1]
+        """MIR function for a callee the model list and the index do not know: only a UNIQUE function of one of
+        the interpreted modules with that last path segment (and, for methods, that type) qualifies"""
+        base = re.sub(r"::<.*?>", "", callee)
+        segs = base.split("::")
+        last = segs[-1]
         if not re.fullmatch(r"\w+", last):
             return None
-        cands = re.findall(r"^fn ((?:sort::<impl at [^>]*>::)?%s)\(" % re.escape(last), self.text, re.M)
-        cands = [c for c in cands if c == last or c.startswith("sort::")]
-        if len(cands) != 1:
+        cands = []
+        for mod in self.modules:
+            cands += re.findall(r"^fn (%s::<impl at [^>]*>::%s)\(" % (re.escape(mod), re.escape(last)), self.text, re.M)
+        free = re.findall(r"^fn (%s)\(" % re.escape(last), self.text, re.M)
+        if len(segs) == 1:
+            return free[0] if len(free) == 1 else None
+        if len(cands) == 1:
+            return cands[0]
+        if len(cands) > 1:
+            # several impls have a method of that name: pick by the Self type, read off the impl header line in the source copy
+            ty = segs[-2]
+            good = []
+            for c in cands:
+                m = re.search(r"gen/(\w+)\.rs:(\d+):", c)
+                if m and self.impl_self_type(m.group(1), int(m.group(2))) == ty:
+                    good.append(c)
+            if len(good) == 1:
+                return good[0]
+        return None
+
+    def impl_self_type(self, module, line):
+        txt = self.module_sources.get(module)
+        if txt is None:
             return None
-        if cands[0] == last:
-            # a free function: make sure it is sort.rs's (the dump prints free functions without their module)
-            src = self.src_sort
-            if not re.search(r"\bfn\s+%s\b" % re.escape(last), src):
-                return None
-        return cands[0]
+        lines = txt.split("\n")
+        if 0 < line <= len(lines):
+            m = re.search(r"impl(?:<[^>]*>)?\s+(?:[\w:<>, ]+\s+for\s+)?(\w+)", lines[line - 1])
+            if m:
+                return m.group(1)
+        return None
 
     # ---- places
     def place(self, st, s):
@@ -420,11 +476,42 @@ class Interp:
             c, k = self.place(st, o[5:])
             return c[k]
         if o.startswith("const "):
+            mp = re.fullmatch(r".*::promoted\[(\d+)\]", o[6:].strip())
+            if mp:
+                return self.eval_promoted(st, int(mp.group(1)))
             return self.constant(o[6:].strip())
         m = re.fullmatch(r"_(\d+)", o)
         if m:
             return st.frames[-1].locs[int(m.group(1))]
         raise Unsupported("operand %r" % o)
+
+    def eval_promoted(self, st, n):
+        """a promoted constant of the function being interpreted: its one-block body is evaluated in a scratch frame"""
+        owner = st.frames[-1].fn.name
+        head = "\nconst %s::promoted[%d]: " % (owner, n)
+        i = self.text.find(head)
+        if i < 0:
+            raise Unsupported("promoted[%d] of %s not found" % (n, owner))
+        end = self.text.index("\n}\n", i)
+        body = self.text[i:end]
+        mb = re.search(r"bb0: \{\n(.*?)\n\s*return;", body, re.S)
+        if not mb or "bb1" in body:
+            raise Unsupported("promoted[%d] of %s is not a single block" % (n, owner))
+        fr = FrameS(st.frames[-1].fn, {}, None, None)
+        st.frames.append(fr)
+        try:
+            for line in mb.group(1).split("\n"):
+                line = re.sub(r"\s*//.*$", "", line).strip()
+                if not line or line.startswith("Storage"):
+                    continue
+                line = line.rstrip(";")
+                j = find_top(line, " = ")
+                v = self.rvalue(st, line[j + 3:])
+                c, k = self.place(st, line[:j])
+                c[k] = v
+        finally:
+            st.frames.pop()
+        return fr.locs[0]
 
     def constant(self, c):
         if c == "true":
@@ -441,6 +528,18 @@ class Interp:
         m = re.fullmatch(r"\"(.*)\"", c)
         if m:
             return Str(("lit", m.group(1)))
+        if c.startswith("b\""):
+            return Str(("bytes", c))
+        m = re.fullmatch(r"ZeroSized: (\{closure@[^}]*\})", c)
+        if m:
+            return Agg([], m.group(1))      # a closure that captures nothing
+        if re.fullmatch(r"(?:\w+::)*[A-Z]\w*", c) and c.split("::")[-1] not in self.enums:
+            nm = c.split("::")[-1]
+            if nm not in self.structs or not self.structs[nm]:
+                return Agg([], nm)              # a unit struct (RecvError, RangeFull-like markers)
+        m = re.fullmatch(r"(?:\w+::)*(\w+)::(\w+)", c)
+        if m and m.group(1) in self.enums and m.group(2) in self.enums[m.group(1)]:
+            return Enum(m.group(1), self.enums[m.group(1)].index(m.group(2)), [])      # a unit variant of a crate enum
         raise Unsupported("constant %r" % c)
 
     def rvalue(self, st, rv):
@@ -502,6 +601,16 @@ class Interp:
             return [self.read_operand_val(st, x) for x in split_top(rv[1:-1])]
         if rv.startswith("(") and rv.endswith(")") and matching_close(rv, 0) == len(rv) - 1:
             return Agg([self.read_operand_val(st, x) for x in split_top(rv[1:-1])])
+        if rv.startswith("{closure@"):
+            j = rv.index("} {") + 1 if "} {" in rv else len(rv)
+            head = rv[:j]
+            vals = []
+            if j < len(rv):
+                body = rv[j:].strip()
+                for part in split_top(body[1:-1].strip()):
+                    fn_, op = part.split(": ", 1)
+                    vals.append(self.read_operand_val(st, op))
+            return Agg(vals, head)
         # struct literal  Name { a: op, ... }
         m = re.fullmatch(r"([\w:<>, ]+?) \{ (.*) \}", rv)
         if m:
@@ -523,10 +632,15 @@ class Interp:
             ty = re.sub(r"::<.*$", "", m.group(1)).split("::")[-1]
             var = m.group(2)
             args = [self.read_operand_val(st, a) for a in split_top(m.group(3))] if m.group(3) else []
-            names = self.enum_variants(ty)
+            try:
+                names = self.enum_variants(ty)
+            except Unsupported:
+                return Enum(ty, var, args)      # an enum of another crate (e.g. termcolor::Color): opaque, never switched on
             if var not in names:
                 raise Unsupported("variant %s of %s" % (var, ty))
             return Enum(ty, names.index(var), args)
+        if re.fullmatch(r"[A-Z]\w*", rv):
+            return Enum("(foreign)", rv, [])        # a unit variant of an enum of another crate, printed bare (termcolor::Color)
         raise Unsupported("rvalue %r" % rv)
 
     # ---- execution
@@ -563,9 +677,19 @@ class Interp:
             rv = fr.locs.get(0, UNIT)
             st.frames.pop()
             if not st.frames:
-                st.result = rv
+                if self.thread_hook is not None:
+                    self.thread_hook(self, st, rv)
+                else:
+                    st.result = rv
                 return
             caller = st.frames[-1]
+            if fr.post is not None:
+                out = self.post_handlers[fr.post["kind"]](self, st, fr.post, rv)
+                if isinstance(out, CallMir):
+                    fn = self.get_fn(out.fname)
+                    st.frames.append(FrameS(fn, {i + 1: a for i, a in enumerate(out.args)}, fr.dest, fr.ret_bb, out.post))
+                    return
+                rv = out
             c, k = self.place(st, fr.dest)
             c[k] = rv
             caller.bb = fr.ret_bb
@@ -576,9 +700,12 @@ class Interp:
         m = re.fullmatch(r"goto -> (bb\d+)", t)
         if m:
             return goto(m.group(1))
-        m = re.fullmatch(r"drop\(.+\) -> \[return: (bb\d+), unwind.*\]", t)
+        m = re.fullmatch(r"drop\((.+)\) -> \[return: (bb\d+), unwind.*\]", t)
         if m:
-            return goto(m.group(1))
+            if self.drop_hook is not None:
+                c, k = self.place(st, m.group(1))
+                self.drop_hook(self, st, c[k] if (isinstance(c, dict) and k in c) or (isinstance(c, list) and k < len(c)) else None)
+            return goto(m.group(2))
         m = re.fullmatch(r"assert\((.+?), \"(.*?)\".*\) -> \[success: (bb\d+), unwind.*\]", t)
         if m:
             ctext = m.group(1).strip()
@@ -607,6 +734,9 @@ class Interp:
             if nxt is None:
                 raise Unsupported("switchInt without matching arm")
             return goto(nxt)
+        mp = re.fullmatch(r"_\d+ = (?:std|core)::(?:rt::panic_fmt|panicking::panic(?:_fmt|_explicit)?|rt::begin_panic::<.*>)\(.*\) -> (?:bb\d+|unwind .*)", t)
+        if mp:
+            raise Panic("panic!() reached in %s" % fr.fn.name.split("::")[-1])
         j = find_top(t, " = ")
         m = None
         if j >= 0:
@@ -640,6 +770,19 @@ class Interp:
                     st.frames.append(FrameS(fn, locs, dest, nxt))
                     return
                 raise Unsupported("call to unmodelled function %s" % callee)
+            if isinstance(out, CallMir):
+                fn = self.get_fn(out.fname)
+                st.frames.append(FrameS(fn, {i + 1: a for i, a in enumerate(out.args)}, dest, nxt, out.post))
+                return
+            if out is BLOCK:
+                self.block_hook(self, st)
+                return
+            if isinstance(out, After):
+                c, k = self.place(st, dest)
+                c[k] = out.value
+                goto(nxt)
+                out.fn(self, st)
+                return
             c, k = self.place(st, dest)
             c[k] = out
             return goto(nxt)
@@ -682,6 +825,8 @@ class Interp:
                 st2.decided[f.cond.sexpr()] = False
                 work.append(st)
                 work.append(st2)
+            except Infeasible:
+                self.pruned = getattr(self, "pruned", 0) + 1
             except Panic as p:
                 panics.append((list(st.pc), str(p)))
                 paths += 1
